@@ -179,13 +179,24 @@ pub fn box_pair() -> impl Strategy<Value = BoxPair> + Clone {
         }
         BoxPair { kind: PairKind::Identical, a, b }
     });
-    let edge_sharing = (base.clone(), -1.5f64..1.5, any::<bool>()).prop_map(|(a, t, along_w)| {
+    let edge_sharing = (base.clone(), prop_oneof![3 => -1.5f64..1.5, 1 => Just(0.0f64)], any::<bool>(), prop_oneof![1 => Just(1.0f32), 1 => 0.3f32..3.0]).prop_map(|(a, t, along_w, stretch)| {
         let ang = a.angle.unwrap_or(0.0) as f64;
         let (dx, dy) = if along_w { (t * a.width() as f64, 0.0) } else { (0.0, t * a.height as f64) };
         let (ox, oy) = rot(dx, dy, ang);
         let mut b = a;
         b.xc = (a.xc as f64 + ox) as f32;
         b.yc = (a.yc as f64 + oy) as f32;
+        // a lane: b keeps the orientation and the extent across the direction of the shift (the
+        // two edges along it stay collinear with a's) but is longer or shorter along it
+        if stretch != 1.0 {
+            if along_w {
+                b.aspect = (a.aspect * stretch).max(0.1 / a.height);
+            } else {
+                let w = a.width();
+                b.height = (a.height * stretch).max(0.1);
+                b.aspect = w / b.height;
+            }
+        }
         BoxPair { kind: PairKind::EdgeSharing, a, b }
     });
     let concentric = (base.clone(), angle_any(), 0.3f32..3.0, 0.3f32..3.0).prop_map(|(a, ang, fw, fh)| {
